@@ -520,9 +520,10 @@ def scaled_dot_product_attention(
     d_head = query.shape[-1]
     seq_len = value.shape[-2]
     # Empirical model of attention output std given mult and seq_len
+    # (a single position attends to itself with weight 1, causal or not)
     scale = (1 - dropout_p) ** 0.5 / logarithmic_interpolation(
         alpha=1 / (1 + 4 * d_head / mult**2),  # = sigmoid(log(mult**2 / (4 * d_head)))
-        lower=((log(seq_len) if is_causal else 1) / seq_len) ** 0.5,
+        lower=((log(seq_len) if is_causal and seq_len > 1 else 1) / seq_len) ** 0.5,
         upper=1.0,
     )
     query, key, value = (scale_bwd(t, scale) for t in (query, key, value))
